@@ -1353,54 +1353,234 @@ func (w *World) kindPredicateTrueSet(fn *ssa.Function) ([]string, bool) {
 
 func ruleC14R5(w *World, r *Report) {
 	const rule = "C14/R5"
-	r.rule(rule, "the dot-identifier mode (after '.', an identifier-like run, even digits or a keyword, is an identifier) is entered exactly after <ident>, <param>, ')' and ']'; the '.' arm sets the flag from that predicate and the field-token reader accepts every identifier-part run", 2)
-	fn := w.fn(w.Mem, "isNextDotIdent")
-	if fn == nil {
-		r.errorf("isNextDotIdent not found")
+	r.rule(rule, "the dot-identifier mode (after '.', an identifier-like run, even digits or a keyword, is an identifier) is entered exactly after <ident>, <param>, ')' and ']': every value stored to Lexer.dotIdent is the constant false or — followed back through parameters, fields of the lexer written only in nextToken, and one kind predicate whose true set is exactly those four kinds — the kind the current token had when nextToken was entered, read before the token is reset", 2)
+	want := []string{")", "<ident>", "<param>", "]"}
+	nt := w.fn(w.Mem, "(*Lexer).nextToken")
+	if nt == nil {
+		r.errorf("(*Lexer).nextToken not found")
 		return
 	}
-	set, ok := w.kindPredicateTrueSet(fn)
-	sort.Strings(set)
-	want := []string{")", "<ident>", "<param>", "]"}
-	if !ok {
-		r.undecided(rule, "isNextDotIdent", w.pos(fn.Pos()), "not a chain of kind == constant tests returning constants")
-	} else if strings.Join(set, " ") != strings.Join(want, " ") {
-		r.bad(rule, "isNextDotIdent", w.pos(fn.Pos()), fmt.Sprintf("returns true for %q, specification: %q", set, want))
-	} else {
-		r.ok(rule, "isNextDotIdent", w.pos(fn.Pos()), fmt.Sprintf("true exactly for %q", set))
-	}
-	// Lexer.dotIdent is written only from the result of isNextDotIdent(lastTokenKind) or the constant false
-	n := 0
+	// stores to a field of the lexer, by field
+	stores := map[string][]*ssa.Store{}
 	for _, f := range w.ModFns {
 		for _, b := range f.Blocks {
 			for _, in := range b.Instrs {
-				st, ok := in.(*ssa.Store)
-				if !ok {
-					continue
-				}
-				fa, ok := st.Addr.(*ssa.FieldAddr)
-				if !ok || !w.isLexerPtr(fa.X.Type()) || fieldAddrName(fa) != "dotIdent" {
-					continue
-				}
-				n++
-				construct := fmt.Sprintf("store to Lexer.dotIdent in %s (%d)", funcName(f), n)
-				if v, isC := constBool(st.Val); isC && !v {
-					r.ok(rule, construct, w.pos(st.Pos()), "reset to false")
-					continue
-				}
-				if call, isCall := st.Val.(*ssa.Call); isCall && call.Call.StaticCallee() == fn {
-					// argument must be the load of lastTokenKind
-					if f2, _, isTok := w.lexerField(call.Call.Args[0]); isTok && f2 == "lastTokenKind" {
-						r.ok(rule, construct, w.pos(st.Pos()), "set from isNextDotIdent(lastTokenKind)")
-						continue
+				if st, ok := in.(*ssa.Store); ok {
+					if fa, ok := st.Addr.(*ssa.FieldAddr); ok && w.isLexerPtr(fa.X.Type()) {
+						stores[fieldAddrName(fa)] = append(stores[fieldAddrName(fa)], st)
 					}
 				}
-				r.bad(rule, construct, w.pos(st.Pos()), "dot-identifier flag set from something other than isNextDotIdent(lastTokenKind) or false")
 			}
+		}
+	}
+	// the reset of the current token in nextToken's entry block
+	resetIdx := -1
+	if len(nt.Blocks) > 0 {
+		for i, in := range nt.Blocks[0].Instrs {
+			if st, ok := in.(*ssa.Store); ok {
+				if fa, ok := st.Addr.(*ssa.FieldAddr); ok && w.isLexerPtr(fa.X.Type()) && fieldAddrName(fa) == "Token" {
+					resetIdx = i
+					break
+				}
+			}
+		}
+	}
+	predChecked := map[*ssa.Function]string{}
+	predOK := func(fn *ssa.Function) string {
+		if why, ok := predChecked[fn]; ok {
+			return why
+		}
+		set, ok := w.kindPredicateTrueSet(fn)
+		sort.Strings(set)
+		why := ""
+		switch {
+		case !ok:
+			why = funcName(fn) + " is not a chain of kind == constant tests returning constants"
+		case strings.Join(set, " ") != strings.Join(want, " "):
+			why = fmt.Sprintf("%s returns true for %q, specification: %q", funcName(fn), set, want)
+		}
+		predChecked[fn] = why
+		if why == "" {
+			r.ok(rule, funcName(fn), w.pos(fn.Pos()), fmt.Sprintf("true exactly for %q", set))
+		} else if ok {
+			r.bad(rule, funcName(fn), w.pos(fn.Pos()), why)
+		} else {
+			r.undecided(rule, funcName(fn), w.pos(fn.Pos()), why)
+		}
+		return why
+	}
+	isKindType := func(t types.Type) bool { return isNamed(t, modRoot+"/token", "TokenKind") }
+	var traceKind func(v ssa.Value, depth int) string
+	var traceFlag func(v ssa.Value, depth int) string
+	// traceKind: v is the kind the current token had at the entry of nextToken ("" = yes)
+	traceKind = func(v ssa.Value, depth int) string {
+		if depth > 6 {
+			return "too deep"
+		}
+		switch x := v.(type) {
+		case *ssa.Parameter:
+			sites := w.callersOf(x.Parent())
+			idx := -1
+			for i, p := range x.Parent().Params {
+				if p == x {
+					idx = i
+				}
+			}
+			if len(sites) == 0 || idx < 0 {
+				return "parameter " + x.Name() + " of " + funcName(x.Parent()) + " has no call site"
+			}
+			for _, s := range sites {
+				if s.Parent() != nil && s.Parent().Synthetic != "" && len(w.callersOf(s.Parent())) == 0 {
+					continue // the promoted-method wrapper of an embedding type that nothing calls
+				}
+				if idx >= len(s.Common().Args) {
+					return "call site of " + funcName(x.Parent()) + " not resolved"
+				}
+				if why := traceKind(s.Common().Args[idx], depth+1); why != "" {
+					return why
+				}
+			}
+			return ""
+		case *ssa.Phi:
+			for _, e := range x.Edges {
+				if why := traceKind(e, depth+1); why != "" {
+					return why
+				}
+			}
+			return ""
+		}
+		addr, ok := isLoad(v)
+		if !ok {
+			return "a kind that is " + v.String()
+		}
+		fa, ok := addr.(*ssa.FieldAddr)
+		if !ok {
+			return "a kind loaded from " + addr.String()
+		}
+		if w.isLexerPtr(fa.X.Type()) {
+			// a field of the lexer that carries the kind over (lastTokenKind): every store to it is in nextToken and stores that kind
+			name := fieldAddrName(fa)
+			if len(stores[name]) == 0 {
+				return "Lexer." + name + " is never written"
+			}
+			for _, st := range stores[name] {
+				if st.Parent() != nt {
+					return "Lexer." + name + " is also written in " + funcName(st.Parent())
+				}
+				if why := traceKind(st.Val, depth+1); why != "" {
+					return why
+				}
+			}
+			return ""
+		}
+		if fieldAddrName(fa) == "Kind" {
+			if tfa, ok := fa.X.(*ssa.FieldAddr); ok && fieldAddrName(tfa) == "Token" && w.isLexerPtr(tfa.X.Type()) {
+				ld := v.(ssa.Instruction)
+				if ld.Parent() != nt || ld.Block() != nt.Blocks[0] || resetIdx < 0 {
+					return "Token.Kind is read at " + w.pos(ld.Pos()) + ", not at the entry of nextToken before the token is reset"
+				}
+				for i, in := range nt.Blocks[0].Instrs {
+					if in == ld {
+						if i < resetIdx {
+							return ""
+						}
+						return "Token.Kind is read after the token was reset"
+					}
+				}
+			}
+		}
+		return "a kind loaded from " + addr.String()
+	}
+	// traceFlag: v is false, or pred(kind at entry of nextToken)
+	traceFlag = func(v ssa.Value, depth int) string {
+		if depth > 6 {
+			return "too deep"
+		}
+		if b, isC := constBool(v); isC {
+			if !b {
+				return ""
+			}
+			return "the constant true"
+		}
+		switch x := v.(type) {
+		case *ssa.Call:
+			callee := x.Call.StaticCallee()
+			if callee != nil && len(callee.Params) == 1 && len(x.Call.Args) == 1 && isKindType(callee.Params[0].Type()) && isBoolType(x.Type()) {
+				if why := predOK(callee); why != "" {
+					return why
+				}
+				return traceKind(x.Call.Args[0], depth+1)
+			}
+			return "the result of " + x.String()
+		case *ssa.Parameter:
+			sites := w.callersOf(x.Parent())
+			idx := -1
+			for i, p := range x.Parent().Params {
+				if p == x {
+					idx = i
+				}
+			}
+			if len(sites) == 0 || idx < 0 {
+				return "parameter " + x.Name() + " of " + funcName(x.Parent()) + " has no call site"
+			}
+			for _, s := range sites {
+				if s.Parent() != nil && s.Parent().Synthetic != "" && len(w.callersOf(s.Parent())) == 0 {
+					continue
+				}
+				if idx >= len(s.Common().Args) {
+					return "call site of " + funcName(x.Parent()) + " not resolved"
+				}
+				if why := traceFlag(s.Common().Args[idx], depth+1); why != "" {
+					return why
+				}
+			}
+			return ""
+		case *ssa.Phi:
+			for _, e := range x.Edges {
+				if why := traceFlag(e, depth+1); why != "" {
+					return why
+				}
+			}
+			return ""
+		}
+		if addr, ok := isLoad(v); ok {
+			if fa, ok := addr.(*ssa.FieldAddr); ok && w.isLexerPtr(fa.X.Type()) && fieldAddrName(fa) != "dotIdent" {
+				name := fieldAddrName(fa)
+				if len(stores[name]) == 0 {
+					return "Lexer." + name + " is never written"
+				}
+				for _, st := range stores[name] {
+					if st.Parent() != nt {
+						return "Lexer." + name + " is also written in " + funcName(st.Parent())
+					}
+					if why := traceFlag(st.Val, depth+1); why != "" {
+						return why
+					}
+				}
+				return ""
+			}
+		}
+		return v.String()
+	}
+	n := 0
+	for _, st := range stores["dotIdent"] {
+		n++
+		construct := fmt.Sprintf("store to Lexer.dotIdent in %s (%d)", funcName(st.Parent()), n)
+		if v, isC := constBool(st.Val); isC && !v {
+			r.ok(rule, construct, w.pos(st.Pos()), "reset to false")
+			continue
+		}
+		if why := traceFlag(st.Val, 0); why != "" {
+			r.bad(rule, construct, w.pos(st.Pos()), "dot-identifier flag set from something other than false or the kind predicate applied to the kind of the previous token: "+why)
+		} else {
+			r.ok(rule, construct, w.pos(st.Pos()), "set from the kind predicate applied to the kind the token had at the entry of nextToken")
 		}
 	}
 	if n < 2 {
 		r.errorf("expected at least two stores to Lexer.dotIdent, found %d", n)
+	}
+	if len(predChecked) == 0 {
+		r.errorf("no store to Lexer.dotIdent goes through a kind predicate")
 	}
 }
 
